@@ -75,7 +75,7 @@ struct POp {
 // the delayed value type: heap-owning, and its copy constructor can be made to throw (user code running inside the container)
 struct VX {
     std::string s;
-    VX() = default;
+    VX() {}  // user-provided and not noexcept, like most payload types with a bit of logic in their default constructor
     explicit VX(std::string t): s(std::move(t)) {}
     VX(const VX& o)
     {
